@@ -161,7 +161,7 @@ func init() {
 					return (&net.Dialer{}).DialContext(ctx, "unix", sock)
 				}}}
 			case "h2-front":
-				ts := httptest.NewUnstartedServer(e.proxy)
+				ts := httptest.NewUnstartedServer(serving(e.proxy))
 				ts.EnableHTTP2 = true
 				ts.StartTLS()
 				defer ts.Close()
